@@ -112,6 +112,20 @@ def run (ctx):
                  "the write is skipped depending on `%s`, state that the reading side resets concurrently: a ping between the reader's reset and its read is swallowed while the flag says a byte is pending - "
                  "the scheduler is not woken and the hand-off waits for the polling timeout" % stateful[0], (um, w_.ast), 'D2')
   ctx.floor('pinger write sites', n_ping, 2)
+  # clearing the wake-up channel: the read end is a blocking descriptor, and the task that clears it runs on the scheduler
+  # thread - a second read in the same call blocks the whole scheduler whenever the first one happened to drain the pipe
+  if mp is not None:
+    for cd in [x for x in ast.walk(mp.node) if isinstance(x, ast.ClassDef)]:
+      for pm in [x for x in cd.body if isinstance(x, ast.FunctionDef) and x.name in ('pong', 'pong_all', 'pongAll')]:
+        pg = q.cfg_of(pm)
+        rd = pg.nodes_with_call(lambda c: (call_name(c) == 'read' and norm(c.func.value) == 'os') or (call_name(c) in ('recv', 'recv_into') and norm(c.func.value).startswith('self.')))
+        looped = [n for n in rd if any(n in pg.loop_body_nodes(h_) or n is h_ or any(n.ast is x_ or (n.ast is not None and any(y_ is x_ for y_ in ast.walk(n.ast))) for x_ in ast.walk(st_.test if isinstance(st_, ast.While) else st_.iter)) for st_, h_, a_ in pg.loop_nodes)]
+        nb = any(call_name(c) in ('setblocking', 'set_blocking') for c in calls_in(mp.node) if isinstance(c.func, ast.Attribute) and ('_r' in norm(c) or 'pair[0]' in norm(c) or 'os' == norm(c.func.value)))
+        for n in rd:
+          bad_ = n in looped and not nb
+          ctx.ob('R-EFFECT', um.short + ':make_pinger.' + cd.name + '.' + pm.name, "clearing the wake-up channel reads once (`%s`)" % n.text(40), not bad_, "single read" if not bad_ else
+                 "the read sits in a loop on a blocking descriptor: when the pending pings are an exact multiple of the read size the extra read blocks - on the scheduler thread, before the queued functions are run; "
+                 "nothing handed over runs until some later ping arrives", (um, n.ast), 'D2')
   g = q.cfg_of(trun)
   pong = g.nodes_with_call(lambda c: call_name(c) == 'pongAll')
   pops = g.nodes_with_call(lambda c: call_name(c) in ('popleft', 'pop') and isinstance(c.func, ast.Attribute) and q.alias_of(trun.node, c.func.value, 'self._calls'))
